@@ -158,7 +158,9 @@ def run_brew(case, tmp, train_fdr=0.23, override=True, max_iter=3, estimator=Non
         if model is None:
             est_cls = ESTIMATORS[case["est"]] if estimator is None else estimator
             est = est_cls(log=logname)
-            model = recorder.make_model(est, train_fdr=train_fdr, max_iter=max_iter, override=override, shuffle=True)
+            # a recording (identity) scaler: the scaler is part of a fold's model and is fitted on that fold's training rows
+            model = recorder.make_model(est, train_fdr=train_fdr, max_iter=max_iter, override=override, shuffle=True,
+                                        scaler=recorder.RecScaler(identity=True))
         cap = cap_value(case, dfs)
         if case.get("single_trained") and estimator is None and not case.get("sweep_before"):
             # an earlier analysis of the same collections supplies the trained model; its log is discarded
